@@ -95,3 +95,12 @@ Example C11_dense_sample :
   | None => False
   end.
 Proof. vm_compute. split; reflexivity. Qed.
+
+(* one id generator through a whole stream -- any number of sources, accepted or rejected, any print options:
+   the ids of all AST nodes and pickles in all its envelopes are pairwise distinct and lie between the counter
+   before and after *)
+Require Import StreamIds.
+Theorem C11_stream_distinct : forall o srcs idc es i, enum_sources o idc srcs = Some (es, i) ->
+  idc <= i /\ NoDup (envs_ids es) /\ Forall (fun x => idc <= x < i) (envs_ids es).
+Proof. intros o srcs idc es i H. destruct (enum_sources_ids o srcs idc es i H) as [L [N F]]. auto. Qed.
+Print Assumptions C11_stream_distinct.
